@@ -45,7 +45,9 @@ def distinct(trace):
     seen = set()
     for ln in open(trace):
         e = json.loads(ln)
-        if e["k"] == "cmp":
+        if e["k"] == "panic":
+            seen.add(("panic", len(e["l"]), len(e["r"])))
+        elif e["k"] == "cmp":
             seen.add((len(e["l"]), len(e["r"]), tuple(e["l"][:3]), tuple(e["r"][:3]), e["reps"]))
         elif e["k"] == "fmt":
             seen.add((e["ty"], e["rep"], tuple(e["d"][:3]), len(e["d"])))
